@@ -253,9 +253,16 @@ class ExprMixin:
         tags = v.tags & {"mask"} if isinstance(node.op, ast.Invert) else frozenset()
         return Val(deps=v.deps, tags=tags)
 
+    def _labelish(self, v: Val) -> bool:
+        return "label" in v.tags or "labels" in v.tags
+
     def e_BinOp(self, node):
         l = self.eval(node.left)
         r = self.eval(node.right)
+        if (self._labelish(l) or self._labelish(r)) and not any(
+                self.obj(o).cls in ("list", "tuple") for o in l.refs | r.refs) and not (
+                l.has_const and isinstance(l.const, str)) and not (r.has_const and isinstance(r.const, str)):
+            self.emit("labelop", node, op="arithmetic:" + type(node.op).__name__, vals=[l, r])
         if l.has_const and r.has_const:
             try:
                 c = _binop(node.op, l.const, r.const)
@@ -333,6 +340,9 @@ class ExprMixin:
                     pass
         tags = {"mask"} if all(isinstance(o, (ast.Eq, ast.NotEq, ast.Lt, ast.LtE, ast.Gt, ast.GtE))
                                for o in node.ops) else set()
+        if any(isinstance(o, (ast.Lt, ast.LtE, ast.Gt, ast.GtE)) for o in node.ops) and any(
+                self._labelish(v) for v in vals):
+            self.emit("labelop", node, op="order-comparison", vals=vals)
         return Val(deps=deps, tags=tags)
 
     def e_IfExp(self, node):
